@@ -139,6 +139,29 @@ class Session:
         self.obligations.append(ob)
         return ob
 
+    def check_qeq(self, kind: str, prover, a, b, line: int = 0, label: str = "", expect_refuted: bool = False) -> Obligation:
+        """equality of two complex rational functions (pyvc.cq.Q): first the exact ring normaliser on the cross-multiplied
+        numerators (decides pure polynomial identities, hypotheses not needed), then z3 with the prover's hypotheses."""
+        from .ring import is_zero
+        t0 = time.time()
+        g1 = a.re * b.den - b.re * a.den
+        g2 = a.im * b.den - b.im * a.den
+        z1, z2 = is_zero(g1), is_zero(g2)
+        if z1 is True and z2 is True and not expect_refuted:
+            name = self._name(kind + (f"[{label}]" if label else ""), line)
+            ob = Obligation(name=name, kind=kind, line=line, function=self.target, status=DISCHARGED, backend="ring-normaliser",
+                            formula=f"polynomial identity ({label}): cross-multiplied numerators normalise to 0", time_s=time.time() - t0)
+            self.solver_time += ob.time_s
+            self.obligations.append(ob)
+            return ob
+        if (z1 is False or z2 is False) and expect_refuted:
+            name = self._name(kind + (f"[{label}]" if label else ""), line)
+            ob = Obligation(name=name, kind=kind, line=line, function=self.target, status=REFUTED, backend="ring-normaliser", expect_refuted=True,
+                            formula=f"not a polynomial identity ({label})", time_s=time.time() - t0)
+            self.obligations.append(ob)
+            return ob
+        return self.check(kind, prover.hyps, prover.eq_goal(a, b), line=line, label=label, expect_refuted=expect_refuted)
+
     def unsupported(self, what: str, line: int = 0) -> Obligation:
         ob = Obligation(name=self._name("unsupported", line), kind="unsupported", status=UNSUPPORTED,
                         line=line, detail=what, function=self.target)
